@@ -97,6 +97,8 @@ type Spec struct {
 	MapCustom  bool     `json:"map_custom"`
 	StopPlan   string   `json:"stop_plan"`
 	Steps      []Step   `json:"steps"`
+	// Busy parameterises the "busy" step (busy-handler family, busy.go).
+	Busy *BusySpec `json:"busy,omitempty"`
 
 	// labels for the fingerprint
 	ConfirmTimings map[string]bool `json:"confirm_timings"`
@@ -684,7 +686,11 @@ func (sp *Spec) Fingerprint() string {
 	if sp.MapCustom {
 		mix["mapped"] = true
 	}
-	return fmt.Sprintf("%s/n=%s/out=%s/trig=%s/stop=%s/conf=%s",
+	fp := fmt.Sprintf("%s/n=%s/out=%s/trig=%s/stop=%s/conf=%s",
 		sp.Shape, nBucket(len(sp.Txs)), setString(mix), setString(sp.TriggerKinds),
 		sp.StopPlan, setString(sp.ConfirmTimings))
+	if sp.Busy != nil {
+		fp += sp.busyFingerprint()
+	}
+	return fp
 }
